@@ -710,6 +710,101 @@ def translate_dispatch(cls, consts, notes):
     return read_len, versions
 
 
+CTOR_ATTRS = ['threads_pids', 'pids_names', 'trace_codes', 'kernel_extensions', 'dyld_modules', 'images', 'processes',
+              'v3_header']                                     # the order of the normal form
+CTOR_TAG = {'threads_pids': '.threadsPids', 'pids_names': '.pidsNames', 'v3_header': '.v3Header'}
+CTOR_TAG.update({a: '(.md %s)' % t for a, t in ATTRS.items()})
+
+
+def translate_ctor(cls, notes):
+    """`KdBufParser.__init__` -> (params, [default values], [(attribute tag, value)] sorted by attribute); value:
+    ('paramOrEmpty', k) | ('display', InitVal) | ('none',) | ('unsupported', text).  The initialisers do not depend on each
+    other (every value is a display, None or `{} if p is None else p` over a parameter that is never rebound), so their
+    order is not part of the term; `dict()` is `{}`; `p if p is not None else {}` is `{} if p is None else p`."""
+    fns = {n.name: n for n in cls.body if isinstance(n, ast.FunctionDef)}
+    fn = fns.get('__init__')
+    if fn is None:
+        notes.append('KdBufParser.__init__ not found')
+        return 0, [], []
+    a = fn.args
+    if fn.decorator_list or a.vararg or a.kwarg or a.kwonlyargs or a.posonlyargs or not a.args or a.args[0].arg != 'self':
+        notes.append('signature of KdBufParser.__init__')
+        return 0, [], []
+    params = [x.arg for x in a.args[1:]]
+
+    def is_none(e):
+        return isinstance(e, ast.Constant) and e.value is None
+
+    def empty_dict(e):
+        return (isinstance(e, ast.Dict) and not e.keys) or (
+            isinstance(e, ast.Call) and isinstance(e.func, ast.Name) and e.func.id == 'dict' and not e.args
+            and not e.keywords and 'dict' not in params)
+
+    def param_of(e):
+        return params.index(e.id) if isinstance(e, ast.Name) and e.id in params else None
+
+    def value(v):
+        if is_none(v):
+            return ('none',)
+        if isinstance(v, ast.IfExp) and isinstance(v.test, ast.Compare) and len(v.test.ops) == 1 \
+                and is_none(v.test.comparators[0]) and param_of(v.test.left) is not None:
+            k = param_of(v.test.left)
+            if isinstance(v.test.ops[0], ast.Is) and empty_dict(v.body) and param_of(v.orelse) == k:
+                return ('paramOrEmpty', k)
+            if isinstance(v.test.ops[0], ast.IsNot) and empty_dict(v.orelse) and param_of(v.body) == k:
+                return ('paramOrEmpty', k)
+        if empty_dict(v):
+            return ('display', '.emptyDict')
+        d = Tr({}).init_val(v)
+        if d is not None:
+            return ('display', d)
+        return ('unsupported', src(v))
+    defaults = [('none',) if is_none(d) else ('unsupported', src(d)) for d in a.defaults]
+    sets = []
+    for st in fn.body:
+        if isinstance(st, ast.Expr) and isinstance(st.value, ast.Constant) and isinstance(st.value.value, str):
+            continue
+        if isinstance(st, ast.Pass):
+            continue
+        if isinstance(st, ast.Assign) and len(st.targets) == 1 and isinstance(st.targets[0], ast.Attribute) \
+                and isinstance(st.targets[0].value, ast.Name) and st.targets[0].value.id == 'self':
+            attr = st.targets[0].attr
+            if attr == 'versions':
+                continue                                   # the dict display: `parse.versions`
+            if attr in CTOR_ATTRS:
+                if any(x[0] == attr for x in sets):
+                    notes.append('__init__: self.%s is assigned twice' % attr)
+                sets.append((attr, value(st.value)))
+                continue
+        notes.append('__init__: ' + src(st)[:200])
+    for n in ast.walk(fn):
+        if isinstance(n, ast.Name) and isinstance(n.ctx, (ast.Store, ast.Del)) and n.id in params + ['self']:
+            notes.append('__init__: parameter %s is rebound' % n.id)
+    sets.sort(key=lambda x: CTOR_ATTRS.index(x[0]))
+    # the attributes are bound by the constructor and by parse_v3 only (parse_v3 is translated)
+    for n in ast.walk(cls):
+        if isinstance(n, ast.Attribute) and isinstance(n.ctx, (ast.Store, ast.Del)) and isinstance(n.value, ast.Name) \
+                and n.value.id == 'self' and n.attr in ('threads_pids', 'pids_names'):
+            if not any(n is x for x in ast.walk(fn)):
+                notes.append('self.%s is rebound outside __init__ (line %d)' % (n.attr, n.lineno))
+    return len(params), defaults, [(CTOR_TAG[a_], v) for a_, v in sets]
+
+
+def lean_ctor(ctor, lean_str):
+    params, defaults, sets = ctor
+
+    def val(v):
+        if v[0] == 'paramOrEmpty':
+            return '.paramOrEmpty %d' % v[1]
+        if v[0] == 'display':
+            return '.display %s' % v[1]
+        if v[0] == 'none':
+            return '.none'
+        return '.unsupported %s' % lean_str(v[1])
+    return ('{ params := %d, defaults := [%s],\n    sets := [%s] }'
+            % (params, ', '.join(val(d) for d in defaults), ', '.join('(%s, %s)' % (a, val(v)) for a, v in sets)))
+
+
 def translate(repo):
     path = os.path.join(repo, 'pykdebugparser', 'kd_buf_parser.py')
     with open(path) as fd:
@@ -734,6 +829,7 @@ def translate(repo):
     stm = fns.get('set_thread_map')
     out['setThreadMap'] = translate_set_thread_map(stm, notes) if stm else [('unsupported', 'set_thread_map not found')]
     out['parse'] = translate_dispatch(cls, consts, notes) if cls else (('iunsupported', 'KdBufParser'), [])
+    out['init'] = translate_ctor(cls, notes) if cls else (0, [], [])
     # the callee names must mean the module-level function / the methods translated here
     for name in ('seek_until', 'from_kd_buf', 'plistlib', 'OsLogEvent'):
         stores = [n for n in ast.walk(tree) if isinstance(n, ast.Name) and n.id == name and isinstance(n.ctx, ast.Store)]
@@ -750,7 +846,7 @@ def generate(repo, write_if_changed, lean_str):
     out, notes = translate(repo)
     L = ['import KdVerif.Model.PyIRRd', 'namespace KdVerif.Gen.PyIRRd', 'open KdVerif.PyIRRd', '',
          '/-! The reader code of pykdebugparser/kd_buf_parser.py (`seek_until`, `set_thread_map`, `parse_v2`, the whole of',
-         '    `parse_v3`, `parse` + `self.versions`), translated from the source text into the IR of',
+         '    `parse_v3`, `parse` + `self.versions`, `KdBufParser.__init__`), translated from the source text into the IR of',
          '    `Model/PyIRRd` (tools/gen_pyir_rd.py). -/', '']
     params, body = out['seekUntil']
     L.append('def seekUntil : Proc := { params := %d, body :=\n  %s }\n' % (params, lean(body, lean_str)))
@@ -760,8 +856,10 @@ def generate(repo, write_if_changed, lean_str):
     read_len, versions = out['parse']
     L.append('def parse : Dispatch := { readLen := %s, versions := [%s] }\n'
              % (lean(read_len, lean_str), ', '.join('(%s, %s)' % kv for kv in versions)))
+    L.append('/-- `KdBufParser.__init__`: the attribute initialisers sorted by attribute. -/')
+    L.append('def init : CtorDef :=\n  %s\n' % lean_ctor(out['init'], lean_str))
     L.append('def prog : Program :=\n  { seekUntil := seekUntil, setThreadMap := setThreadMap, parseV2 := parseV2, '
-             'parseV3 := parseV3, parse := parse }\n')
+             'parseV3 := parseV3, parse := parse, init := init }\n')
     L.append('/-- What the translator could not express outside the bodies (must be empty). -/')
     L.append('def notes : List String := [' + ', '.join(lean_str(n) for n in notes) + ']\n')
     L += ['end KdVerif.Gen.PyIRRd', '']
